@@ -78,6 +78,29 @@ func init() {
 	// json.Marshal(v): a value whose type has a MarshalJSON method is encoded by
 	// that method (this is how encoding/json behaves); anything else is an
 	// uninterpreted, deterministic encoding of the value.
+	// json.Unmarshal(data, &v): writes only what v points to; an error, or v filled
+	models["encoding/json.Unmarshal"] = func(x *Exec, fr *Frame, st *State, pc *preparedCall, k func(*State, []Value)) {
+		var dst PtrV
+		switch a := pc.args[1].(type) {
+		case PtrV:
+			dst = a
+		case OpaqueV:
+			if p, ok := a.Dyn.(PtrV); ok {
+				dst = p
+			} else {
+				panic(x.unsupported("json.Unmarshal into something other than a pointer"))
+			}
+		default:
+			panic(x.unsupported("json.Unmarshal into something other than a pointer"))
+		}
+		fresh := x.freshValue(st, x.resolveType(dst.Elem), "unmarshalled")
+		if dst.LV != nil {
+			dst.LV.Store(x, st, fresh)
+		} else {
+			x.heapStore(st, dst, fresh)
+		}
+		k(st, []Value{x.freshErr(st, "jsonerr")})
+	}
 	models["encoding/json.Marshal"] = func(x *Exec, fr *Frame, st *State, pc *preparedCall, k func(*State, []Value)) {
 		arg := pc.args[0]
 		var dyn Value = arg
